@@ -1261,6 +1261,9 @@ bool Annotator::AnnotatorImpl::itemsEqual(const AnyCellmlElementPtr &itemWeak, c
 bool Annotator::AnnotatorImpl::validItem(const AnyCellmlElementPtr &item)
 {
     bool result = false;
+    if (item == nullptr) {
+        return result;
+    }
     switch (item->type()) {
     case CellmlElementType::COMPONENT:
     case CellmlElementType::COMPONENT_REF:
@@ -1336,7 +1339,7 @@ std::string Annotator::AnnotatorImpl::setAutoId(const AnyCellmlElementPtr &item)
             addIssueNoModel();
         }
     } else {
-        addIssueInvalidArgument(item->type());
+        addIssueInvalidArgument((item != nullptr) ? item->type() : CellmlElementType::UNDEFINED);
     }
     return newId;
 }
